@@ -1046,10 +1046,15 @@ def oracle_c22(ctx, budget_s):
         c3 = sp.ContinuousFactor("c3", distribution=sp.CustomDistribution(f3, [win]))
         from sweetpea._internal.constraint import ContinuousConstraint
         cc = ContinuousConstraint([c1], lambda x: x >= thr)
+        # further constraints, in varying order: an upper bound on the dependent factor and a two-argument one
+        hi = rng.choice([1.5, 1.7, 1.9])
+        cc2 = ContinuousConstraint([c2], lambda y: y <= hi)
+        cc3 = ContinuousConstraint([c1, c2], lambda x, y: y - x == 1.0)
+        ccs = rng.choice([[cc], [cc, cc2], [cc2, cc], [cc3, cc2, cc], [cc2, cc3, cc]])
         try:
             with D.contextlib.redirect_stdout(D.io.StringIO()):
                 blk = sp.CrossBlock(design + [c1, c2, c3], [built.factors[i] for i in b["crossing"]],
-                                    [D.build_constraint(desc, c, built) for c in b["cs"]] + [cc], b["rcc"])
+                                    [D.build_constraint(desc, c, built) for c in b["cs"]] + ccs, b["rcc"])
         except Exception:
             continue
         case = O.Case(ctx, desc)
@@ -1073,6 +1078,10 @@ def oracle_c22(ctx, budget_s):
                     bad = "continuous factor %s has %s values for %d trials" % (k, len(e.get(k, [])), n)
             if not bad and any(not (x >= thr) for x in e["c1"]):
                 bad = "ContinuousConstraint (x >= %s) is violated in the returned values %s" % (thr, e["c1"])
+            if not bad and cc2 in ccs and any(not (y <= hi) for y in e["c2"]):
+                bad = "ContinuousConstraint (y <= %s), one of %d constraints, is violated in the returned values %s" % (hi, len(ccs), e["c2"])
+            if not bad:
+                ctx.count("C22.constraints.%d" % len(ccs))
             if not bad and ei == len(exps) - 1:
                 # the last n logged calls belong to the accepted pass of the last experiment
                 a2, a3 = log2[-n:], log3[-n:]
